@@ -274,3 +274,18 @@ case(
     ensures={"v": "result == v"}, canaries={"z": "result == 0"},
     gen=lambda rng: {"v": rng.randint(1, 4)},
 )
+
+# ---- references inside tuple / Optional results of a call are allocated (a later new object differs from them) -----------------------------
+from pyvc.api import Tuple  # noqa: E402
+
+case(
+    B + "pair_of", params={"a": Ref("STNode"), "b": Opt(Ref("STNode"))}, returns=Tuple(Ref("STNode"), Opt(Ref("STNode"))),
+    ensures={"same": "result[0] is a", "alloc": "allocated(result[0]) and allocated(result[1]) and not fresh(result[1])"},
+    canaries={"fresh": "fresh(result[0])"},
+    gen=lambda rng: {"v": rng.randint(0, 3)}, build=lambda d: {"a": M.STNode(d["v"]), "b": None},
+)
+case(
+    B + "use_pair", params={"a": Ref("STNode"), "v": INT}, returns=STR,
+    ensures={"kept": "result == a.tag"}, canaries={"new": "result == 'new'"},
+    gen=lambda rng: {"v": rng.randint(0, 3)}, build=lambda d: {"a": M.STNode(d["v"]), "v": d["v"]},
+)
